@@ -8,7 +8,16 @@ the two validators the driver `drv_c05` runs on the operands and on the result r
   Boolean law holds at the centre of each of the `N²` unit cells (`Props/C05.lean` proves that this decides the law at
   EVERY point of every open cell);
 * `validatePoints m A B R op pts` — the law holds at each listed sample point that is at least `m` away from every
-  edge of A, B and R (sampling; nothing universal follows).
+  edge of A, B and R (sampling; nothing universal follows);
+* `pruneOK op A B fa fb` — the flags the clipper's bounding-box pruning step (`identifyNonContributingContours`, seen
+  through an overlay) returned for the operands: every flagged contour is separated from every contour of the other
+  operand by an axis-parallel line (`Props/C05.lean`, `prune_sound`: dropping them changes the region at no point).
+
+Three stages of the clipper itself ARE transcribed (and compared with the real code through overlays, areas `prune`,
+`emit`, `sbt`): `nonContributing` (bounding-box pruning), `generate` (contour emission) and `scanBeamTable` (the
+scan-beam tree and its in-order table); so are the library's own point tests `Contour.Contains`,
+`Polygon.ContainsEvenOdd`, `Polygon.Contains` (`containsC`, `containsEvenOdd`, `containsAny`; area `contains`).
+The local minima table the real code builds is validated, not transcribed (`lmtOK`; area `lmt`).
 
 Arithmetic is exact: every IEEE value is a dyadic rational `m·2^e` (`Dy`); all numbers of one call are brought to the
 common denominator `2^(-emin)` and the tests are then division-free tests on `Int`.  Core Lean only. -/
@@ -225,17 +234,16 @@ def emptyCert : Op → Polygon → Polygon → Bool
 
 def validateEmpty (A B R : Polygon) (op : Op) : Bool := !(emptyCert op A B) || resultEmpty R
 
-/-! ### the general disjointness / containment judgement (exact, executable; soundness NOT machine-proved)
+/-! ### the general disjointness / containment judgement (exact, executable; soundness machine-proved)
 
-`noContact A B`: no edge of `A` meets an edge of `B` (closed segments: touching and collinear overlap count as meeting),
-no vertex of `A` is inside `B` and no vertex of `B` is inside `A`.  Then the regions are disjoint
-(`Props/C05.lean`, `noContact_disjoint_Statement` — a topological fact that is stated, not proved, there; proved only for
-operands separated by a line, `sepLine`).  `containedIn A B`: the boundaries do not meet, every vertex of `A` is inside
-`B` and no vertex of `B` is inside `A`; then `A ⊆ B` (`containedIn_subset_Statement`, likewise unproved).  The validator
-uses them in addition to the proved certificate: an Intersect of `noContact` operands and a Sub of `containedIn`
-operands must return an empty polygon. -/
-
-def sgn (i : Int) : Int := if 0 < i then 1 else if i < 0 then -1 else 0
+`noContact A B`: every edge of `A` is APART from every edge of `B` for an elementary reason (`segApart`: the end points of
+one are strictly on the same side of the line through the other - for segments that are not on one common line this is
+exactly "no point in common"), no edge of `A` starts inside `B` and no edge of `B` starts inside `A`.  Then the regions
+are disjoint (`Props/C05.lean`, `noContact_disjoint`, a Jordan-type theorem for the even-odd rule: `inside` does not change
+along a segment that is apart from every edge, and the first boundary point hit by the ray from a common point gives the
+contradiction).  `containedIn A B`: the boundaries are apart, every edge of `A` starts inside `B` and no edge of `B` starts
+inside `A`; then `A ⊆ B` (`containedIn_subset`).  The validator uses them in addition to the certificate `emptyCert`: an
+Intersect of `noContact` operands and a Sub of `containedIn` operands must return an empty polygon. -/
 
 def inBox (a b c : Pt) : Bool :=
   decide (min a.x b.x ≤ c.x ∧ c.x ≤ max a.x b.x ∧ min a.y b.y ≤ c.y ∧ c.y ≤ max a.y b.y)
@@ -243,13 +251,13 @@ def inBox (a b c : Pt) : Bool :=
 /-- `c` lies on the closed segment `ab` -/
 def onSeg (a b c : Pt) : Bool := orient a b c == 0 && inBox a b c
 
-/-- do the closed segments `ab` and `cd` have a point in common -/
-def segMeet (a b c d : Pt) : Bool :=
-  (sgn (orient a b c) != sgn (orient a b d) && sgn (orient c d a) != sgn (orient c d b)) ||
-  onSeg a b c || onSeg a b d || onSeg c d a || onSeg c d b
+/-- the closed segments `ab` and `cd` are apart: `c`, `d` strictly on the same side of the line `ab`, or `a`, `b` strictly
+    on the same side of the line `cd` -/
+def segApart (a b c d : Pt) : Bool :=
+  decide (0 < orient a b c * orient a b d) || decide (0 < orient c d a * orient c d b)
 
 def boundariesApart (EA EB : List (Pt × Pt)) : Bool :=
-  EA.all fun e => EB.all fun f => !(segMeet e.1 e.2 f.1 f.2)
+  EA.all fun e => EB.all fun f => segApart e.1 e.2 f.1 f.2
 
 def noContact (A B : Polygon) : Bool :=
   let EA := allEdges A
@@ -261,7 +269,7 @@ def containedIn (A B : Polygon) : Bool :=
   let EB := allEdges B
   !EA.isEmpty && boundariesApart EA EB && EA.all (fun e => insideE EB e.1) && EB.all (fun f => !(insideE EA f.1))
 
-/-- regions judged empty by the general (unproved) judgement -/
+/-- regions judged empty by the general judgement (`Props/C05.lean`, `emptyJudged_sound`) -/
 def emptyJudged : Op → Polygon → Polygon → Bool
   | .inter, A, B => noContact A B
   | .sub, A, B => containedIn A B
@@ -274,6 +282,174 @@ def validateEmptyJudged (A B R : Polygon) (op : Op) : Bool := !(emptyJudged op A
     judgement holds (`emptyJudged`) -/
 def validateGeneral (m : Int) (A B R : Polygon) (op : Op) (pts : List Pt) : Bool :=
   validatePoints m A B R op pts && validateEmpty A B R op && validateEmptyJudged A B R op
+
+/-! ## bounding-box pruning of non-contributing contours (`Polygon.identifyNonContributingContours`, polygon.go)
+
+Before the sweep the clipper drops ("prunes") contours that cannot contribute: for Intersect a subject contour whose
+bounding box meets no clip contour's box and a clip contour whose box meets no subject contour's box, for Sub only such
+clip contours; Union and Xor prune nothing.  `pruneOK op A B fa fb` is the exact check the driver runs on the flags
+`fa`, `fb` the REAL function returned for the operands `A`, `B` of a call: every flagged contour is `farFrom` the other
+operand, i.e. weakly separated from each of its contours by an axis-parallel line (their exact closed bounding boxes
+have no interior point in common), and no flag is set where the operation prunes nothing.  `Props/C05.lean`, `prune_sound`: then
+dropping the flagged contours (`keep`) changes the combined region at NO point. -/
+
+/-- the entries of `l` whose flag is not set (entries beyond the flag list are kept) -/
+def keep {α : Type} : List Bool → List α → List α
+  | _, [] => []
+  | [], l => l
+  | f :: fs, c :: cs => if f then keep fs cs else c :: keep fs cs
+
+/-- the two contours are (weakly) separated by a vertical or a horizontal line: their closed bounding boxes have no
+    interior point in common (they may touch: with the half-open crossing rule no point is inside both contours even
+    then, so ANY box test that flags only contours with interior-disjoint boxes is accepted) -/
+def sepPts (c d : Contour) : Bool :=
+  (c.all fun u => d.all fun v => decide (u.x ≤ v.x)) || (c.all fun u => d.all fun v => decide (v.x ≤ u.x)) ||
+  (c.all fun u => d.all fun v => decide (u.y ≤ v.y)) || (c.all fun u => d.all fun v => decide (v.y ≤ u.y))
+
+def farFrom (c : Contour) (Q : Polygon) : Bool := Q.all (sepPts c)
+
+/-- every flagged contour of `P` is far from every contour of `Q` -/
+def flaggedFar : List Bool → Polygon → Polygon → Bool
+  | f :: fs, c :: cs, Q => (!f || farFrom c Q) && flaggedFar fs cs Q
+  | _, _, _ => true
+
+def pruneOK (op : Op) (A B : Polygon) (fa fb : List Bool) : Bool :=
+  match op with
+  | .inter => flaggedFar fa A B && flaggedFar fb B A
+  | .sub => !(fa.any id) && flaggedFar fb B A
+  | _ => !(fa.any id) && !(fb.any id)
+
+/-- the trivial-result shortcut at the head of `Polygon.construct` (polygon.go): no contour in either operand, no
+    contour in the receiver for Intersect/Sub, no contour in the argument for Intersect -/
+def shortCircuit (op : Op) (A B : Polygon) : Bool :=
+  (A.isEmpty && B.isEmpty) || (A.isEmpty && (op == .inter || op == .sub)) || (B.isEmpty && op == .inter)
+
+/-! ### the pruning rule as the code writes it (`Contour.Bounds`, `geom.Rect.Intersects`,
+    `Polygon.identifyNonContributingContours`), in exact arithmetic
+
+`one` is the number 1 in the (scaled) coordinates of the call.  In exact arithmetic `extent(lo,hi) = 1 + hi - lo` (its
+rounding guard never fires), so the box of a contour is the half-open rectangle `[minX, maxX+1) × [minY, maxY+1)`.
+`Props/C05.lean`, `nonContributing_sound`: the flags this rule produces always satisfy `pruneOK`.  The driver compares
+the flags of the real function with this transcription on the lines whose float arithmetic is exact and reports
+agreement as a statistic (a more conservative box test would be just as correct, so a difference is not an alarm). -/
+
+structure Rect where
+  x : Int
+  y : Int
+  w : Int
+  h : Int
+deriving DecidableEq, Repr
+
+/-- `geom.Rect.Empty` -/
+def Rect.isEmpty (r : Rect) : Bool := decide (r.w ≤ 0) || decide (r.h ≤ 0)
+
+/-- `geom.Rect.Intersects` -/
+def Rect.intersects (r o : Rect) : Bool :=
+  if r.isEmpty || o.isEmpty then false
+  else decide (r.x < o.x + o.w) && decide (r.y < o.y + o.h) && decide (r.x + r.w > o.x) && decide (r.y + r.h > o.y)
+
+def minOf (f : Pt → Int) (v : Pt) (t : List Pt) : Int := t.foldl (fun m u => if f u < m then f u else m) (f v)
+def maxOf (f : Pt → Int) (v : Pt) (t : List Pt) : Int := t.foldl (fun m u => if f u > m then f u else m) (f v)
+
+/-- `Contour.Bounds` (exact arithmetic): the zero rectangle for a contour without vertices -/
+def boundsOf (one : Int) : Contour → Rect
+  | [] => ⟨0, 0, 0, 0⟩
+  | v :: t =>
+    let minX := minOf (·.x) v t
+    let minY := minOf (·.y) v t
+    ⟨minX, minY, one + maxOf (·.x) v t - minX, one + maxOf (·.y) v t - minY⟩
+
+/-- `Polygon.identifyNonContributingContours` -/
+def nonContributing (one : Int) (op : Op) (subj clip : Polygon) : List Bool × List Bool :=
+  if (op == .inter || op == .sub) && !subj.isEmpty && !clip.isEmpty then
+    let clipNC := clip.map fun c => !(subj.any fun s => (boundsOf one s).intersects (boundsOf one c))
+    let subjNC :=
+      if op == .inter then subj.map fun s => !(clip.any fun c => (boundsOf one s).intersects (boundsOf one c))
+      else subj.map fun _ => false
+    (subjNC, clipNC)
+  else (subj.map fun _ => false, clip.map fun _ => false)
+
+/-! ## contour emission (`polygonNode.generate`, polygon_node.go) and the scan-beam table (scan_beam_tree.go) -/
+
+def dedupFrom (prev : Pt) : List Pt → List Pt
+  | [] => []
+  | v :: t => if prev = v then dedupFrom prev t else v :: dedupFrom v t
+
+/-- the vertices of an output chain without those equal to their predecessor (`prev == nil || prev.pt != v.pt`) -/
+def dedup : List Pt → List Pt
+  | [] => []
+  | a :: t => a :: dedupFrom a t
+
+/-- `generate`: every active chain with more than two such vertices becomes a contour, written back to front; the
+    others are dropped -/
+def generate (chains : List (Bool × List Pt)) : Polygon :=
+  chains.filterMap fun ch => if ch.1 && decide (2 < (dedup ch.2).length) then some (dedup ch.2).reverse else none
+
+/-- the check of the area `emit`: `R` (what the real `generate` returned) and the active chains `A` are rectilinear lattice
+    polygons of `[0,N]²` and contain the same cell centres (`Props/C05.lean`, `emit_sound`: then the same points
+    everywhere).  No emptiness demand: chains that cancel each other are emitted as they are. -/
+def sameRegionLattice (N : Nat) (A R : Polygon) : Bool :=
+  latticeOK N A && latticeOK N R && cellsOK N (dblPoly A) (dblPoly []) (dblPoly R) .union
+
+/-- the chains `generate` looks at, as they are -/
+def activeChains (chains : List (Bool × List Pt)) : Polygon := (chains.filter (·.1)).map (·.2)
+
+/-- the scan-beam tree: a binary search tree of ordinates without duplicates -/
+inductive SBT where
+  | nil
+  | node (l : SBT) (y : Int) (r : SBT)
+
+/-- `scanBeamTree.addToScanBeamTreeAt` -/
+def SBT.add : SBT → Int → SBT
+  | .nil, y => .node .nil y .nil
+  | .node l v r, y => if v > y then .node (l.add y) v r else if v < y then .node l v (r.add y) else .node l v r
+
+/-- `buildScanBeamTableEntries`: in-order walk -/
+def SBT.table : SBT → List Int
+  | .nil => []
+  | .node l v r => l.table ++ v :: r.table
+
+/-- `buildScanBeamTable` after `add` of every ordinate in the given order -/
+def scanBeamTable (ys : List Int) : List Int := (ys.foldl SBT.add .nil).table
+
+/-! ## the library's own point tests (`Contour.Contains`, `Polygon.Contains`, `Polygon.ContainsEvenOdd`), exact arithmetic -/
+
+/-- `pt.X <= (pt.Y-cur.Y)*(next.X-cur.X)/(next.Y-cur.Y)+cur.X`, division-free (`next.y ≠ cur.y`) -/
+def leXint (cur next pt : Pt) : Bool :=
+  if cur.y < next.y then decide ((pt.x - cur.x) * (next.y - cur.y) ≤ (pt.y - cur.y) * (next.x - cur.x))
+  else decide ((pt.y - cur.y) * (next.x - cur.x) ≤ (pt.x - cur.x) * (next.y - cur.y))
+
+/-- one term of the loop of `Contour.Contains`: does the edge `cur → next` count at `pt` -/
+def containsEdge (cur next pt : Pt) : Bool :=
+  let bottom := if cur.y > next.y then next else cur
+  let top := if cur.y > next.y then cur else next
+  decide (pt.y ≥ bottom.y) && decide (pt.y < top.y) && decide (pt.x < max cur.x next.x) && decide (next.y ≠ cur.y) &&
+    (decide (cur.x = next.x) || leXint cur next pt)
+
+/-- `Contour.Contains` -/
+def containsC (c : Contour) (pt : Pt) : Bool := (edgesOf c).countP (fun e => containsEdge e.1 e.2 pt) % 2 == 1
+
+/-- `Polygon.ContainsEvenOdd` -/
+def containsEvenOdd (P : Polygon) (pt : Pt) : Bool := P.countP (fun c => containsC c pt) % 2 == 1
+
+/-- `Polygon.Contains` -/
+def containsAny (P : Polygon) (pt : Pt) : Bool := P.any (fun c => containsC c pt)
+
+/-- `pt` lies on no edge of `P` -/
+def offEdges (P : Polygon) (pt : Pt) : Bool := (allEdges P).all fun e => !(onSeg e.1 e.2 pt)
+
+/-! ## the local minima table (`buildLocalMinimaTable`, local_minima_table.go), validated, not transcribed -/
+
+/-- an edge with its lower end first -/
+def upEdge (e : Pt × Pt) : Pt × Pt := if e.1.y < e.2.y then e else (e.2, e.1)
+
+def nonHoriz (e : Pt × Pt) : Bool := e.1.y != e.2.y
+
+/-- the check the driver runs on the edges `E` of all bounds of the local minima table the real code built for `P`:
+    every edge goes strictly upward and together they are exactly the non-horizontal edges of `P`, lower end first
+    (as a multiset).  `Props/C05.lean`, `lmt_sound`: then the edges handed to the sweep have exactly the region of `P`. -/
+def lmtOK (P : Polygon) (E : List (Pt × Pt)) : Bool :=
+  E.all (fun e => decide (e.1.y < e.2.y)) && E.isPerm (((allEdges P).filter nonHoriz).map upEdge)
 
 /-! ## exact numbers: dyadic rationals and IEEE decoding -/
 
